@@ -17,6 +17,7 @@ func (P *Program) checkFrame(fn *ssa.Function, depth int) []string {
 	var bad []string
 	var local func(x ssa.Value) bool
 	phiSeen := map[*ssa.Phi]bool{}
+	loadSeen := map[*ssa.UnOp]bool{}
 	local = func(x ssa.Value) bool {
 		switch a := x.(type) {
 		case *ssa.Alloc, *ssa.MakeMap, *ssa.MakeSlice:
@@ -38,6 +39,39 @@ func (P *Program) checkFrame(fn *ssa.Function, depth int) []string {
 				}
 				if !local(e) {
 					return false
+				}
+			}
+			return true
+		case *ssa.UnOp:
+			// a load from a cell of a local variable that never escapes: local if everything ever
+			// stored into that cell is local (or nil)
+			if a.Op != token.MUL {
+				return false
+			}
+			if loadSeen[a] {
+				return true
+			}
+			loadSeen[a] = true
+			root, path, ok := allocPath(a.X)
+			if !ok || allocEscapes(root) {
+				return false
+			}
+			for _, b := range fn.Blocks {
+				for _, in := range b.Instrs {
+					st, isStore := in.(*ssa.Store)
+					if !isStore {
+						continue
+					}
+					r2, p2, ok2 := allocPath(st.Addr)
+					if !ok2 || r2 != root || !(pathPrefix(p2, path) || pathPrefix(path, p2)) {
+						continue
+					}
+					if c, isConst := st.Val.(*ssa.Const); isConst && (c.IsNil() || c.Value == nil) {
+						continue
+					}
+					if len(p2) != len(path) || !local(st.Val) {
+						return false
+					}
 				}
 			}
 			return true
@@ -490,4 +524,64 @@ func (P *Program) checkModFrame(fn *ssa.Function, ct *Contract, mapKey func(*typ
 	}
 	walk(fn, 0, "")
 	return bad, true
+}
+
+// allocPath resolves an address of the form &alloc.f1.f2... to its local variable and field path.
+func allocPath(x ssa.Value) (*ssa.Alloc, []int, bool) {
+	switch a := x.(type) {
+	case *ssa.Alloc:
+		return a, nil, true
+	case *ssa.FieldAddr:
+		r, p, ok := allocPath(a.X)
+		if !ok {
+			return nil, nil, false
+		}
+		return r, append(append([]int{}, p...), a.Field), true
+	}
+	return nil, nil, false
+}
+
+func pathPrefix(a, b []int) bool {
+	if len(a) > len(b) {
+		return false
+	}
+	for i := range a {
+		if a[i] != b[i] {
+			return false
+		}
+	}
+	return true
+}
+
+// allocEscapes: the address of the local variable (or of one of its fields) is used for anything
+// but loads, stores into it and further field addressing.
+func allocEscapes(a *ssa.Alloc) bool {
+	var esc func(v ssa.Value) bool
+	esc = func(v ssa.Value) bool {
+		refs := v.Referrers()
+		if refs == nil {
+			return true
+		}
+		for _, r := range *refs {
+			switch u := r.(type) {
+			case *ssa.Store:
+				if u.Val == v {
+					return true
+				}
+			case *ssa.UnOp:
+				if u.Op != token.MUL {
+					return true
+				}
+			case *ssa.FieldAddr:
+				if esc(u) {
+					return true
+				}
+			case *ssa.DebugRef:
+			default:
+				return true
+			}
+		}
+		return false
+	}
+	return esc(a)
 }
